@@ -561,6 +561,57 @@ def crowd_expiry_session(col, binpath, rng, tag, scratch):
         sess.close()
 
 
+def stats_relay_session(col, binpath, rng, tag, scratch):
+    """One aircraft after the other, each first heard just as its predecessor times out
+    (--filter-time 1, gaps of 1 s + 3..60 ms): additions and removals fall into the same turns of the
+    client's loop. Every address is new, so the total is the number of addresses whatever the timing."""
+    n = rng.randint(10, 14)
+    base = 0x700000 + rng.randrange(0x1000)
+    plan = [("wait_for", "go")]
+    gaps = []
+    for i in range(n):
+        plan.append(("send", enc.line(enc.long_frame(17, 5, base + i, enc.me_ident(4, 0, "R%03d" % i)))))
+        g = 1.0 + rng.choice([0.003, 0.006, 0.010, 0.015, 0.020, 0.030, 0.045, 0.060])
+        gaps.append(g)
+        plan.append(("sleep", g))
+    plan += [("mark", "feed_done"), ("sleep", 60)]
+    sess = session.RadarSession(binpath, plan, lat=52.0, lon=4.0, opts=["--filter-time", "1"], rows=40, cols=150, scratch=scratch)
+    inp = {"scenario": "relay", "aircraft": n, "gaps_s": gaps, "filter_time": 1}
+    try:
+        sess.wait_connected()
+        sess.key("F4")
+        sess.settle(0.3, 5.0)
+        sess.srv.release("go")
+        end = time.monotonic() + 2 * n + 40
+        while time.monotonic() < end and not sess.srv.marked("feed_done"):
+            sess.p.pump(0.1)
+            if not sess.p.alive():
+                raise Inconclusive("radar gone")
+        sess.p.pump(1.0)
+        tot = None
+        for l in sess.p.screen.text():
+            m = re.search(r"Total Airplanes\s+All Time\s+(\d+)", l)
+            if m:
+                tot = int(m.group(1))
+        col.count("relay_sessions")
+        col.cls("stats|relay")
+        if tot is None:
+            if sess.widget_missing("F4", lambda: any("Total Airplanes" in l for l in sess.p.screen.text())):
+                col.add("C18", "C18|stats_tab_not_drawn", "the Stats tab is selected, the frame of the UI is on screen, but the statistics are not drawn", inp)
+                return
+            raise Inconclusive("Stats rows not found")
+        col.count("stats_compared")
+        if tot != n:
+            col.add("C18", "C18|stats_total_airplanes|relay", f"Total Airplanes {tot}; {n} aircraft with {n} different addresses were newly added, one about every second with --filter-time 1", inp)
+    except Inconclusive:
+        if sess.p.alive():
+            raise
+        col.add("C17", f"C17|terminated_before_quit|{sess.p.alive() or sess.panic_location()}", "radar died during a C18 session", inp)
+        col.add("C18", f"C18|radar_died_while_showing_data|{sess.panic_location()}", "radar terminated during a session: nothing is shown any more", inp)
+    finally:
+        sess.close()
+
+
 def stats_expiry_session(col, binpath, rng, tag, scratch):
     """Aircraft expire and come back: Total counts every (re-)add, Most the largest simultaneous count.
     Event driven (title counts), so a slow machine only makes it slower."""
@@ -955,6 +1006,8 @@ def main(a, lcol, col, run_all, scratch, START):
     # long sessions first (they take the longest): 4-digit counts in the quick tier, 5-digit in thorough
     for i, n_msgs in enumerate([1003 + 7 * (a.seed % 50), 10_007 + 11 * (a.seed % 50)] if thorough else [1003 + 7 * (a.seed % 50)]):
         jobs.insert(0, (f"long#{i}", lambda rng, i=i, n_msgs=n_msgs: long_count_session(lcol, a.bin, a.vmon, rng, f"long#{i}", scratch, n_msgs)))
+    for i in range(16 if thorough else 2):
+        jobs.insert(0, (f"relay#{i}", lambda rng, i=i: stats_relay_session(lcol, a.bin, rng, f"relay#{i}", scratch)))
     for i in range(6 if thorough else 1):
         jobs.append((f"crowdexp#{i}", lambda rng, i=i: crowd_expiry_session(lcol, a.bin, rng, f"crowdexp#{i}", scratch)))
     for i in range(24 if thorough else 2):
@@ -963,10 +1016,10 @@ def main(a, lcol, col, run_all, scratch, START):
         jobs.insert(0, (f"crowd#{i}", lambda rng, i=i: crowd_session(lcol, a.bin, a.vmon, rng, f"crowd#{i}", scratch)))
     run_all(jobs)
     ev = col.counters.get("rows_compared", 0) + col.counters.get("stats_compared", 0) + col.counters.get("view_control_sequences", 0) + col.counters.get("map_sessions", 0) * 8 + col.counters.get("expiry_sessions", 0)
-    distinct = col.counters.get("data_sessions", 0) + col.counters.get("long_count_sessions", 0) + col.counters.get("crowd_sessions", 0) + col.counters.get("crowd_expiry_sessions", 0) + col.counters.get("gpsd_sessions", 0) + col.counters.get("map_sessions", 0) + col.counters.get("expiry_sessions", 0)
+    distinct = col.counters.get("data_sessions", 0) + col.counters.get("long_count_sessions", 0) + col.counters.get("crowd_sessions", 0) + col.counters.get("crowd_expiry_sessions", 0) + col.counters.get("gpsd_sessions", 0) + col.counters.get("map_sessions", 0) + col.counters.get("expiry_sessions", 0) + col.counters.get("relay_sessions", 0)
     col.sample({"data_session": "20 aircraft in four quadrants with identification/velocity/position (some one parity only); all 10 columns of every Airplanes row == library run on the same lines; tab title; Stats totals; 1-40 view-control events then rows unchanged"})
     col.sample({"map_session": "8 aircraft due N/E/S/W at d and 2d km; blue braille cells relative to the axis crossing: direction, 2:1 proportion, E/W and N/S symmetry, receiver at the canvas centre, the same picture scaled after three zoom-outs and after five zoom-ins, reset restores the cells"})
     return vlib.finish(col, "C18", a.tier, a.seed, "exploration",
-        "radar on a 200x60 pseudo-terminal fed by a scripted server: (a) data sessions: the reconstructed Airplanes table (address, callsign, lat, lon, heading, altitude, rate, speed, distance, message count; blanks without a position) == rows computed by the repository's library on the same recorded lines (vmon feedsim), tab title count, Stats 'Total'/'Most'; then 1-40 zoom/pan/reset/drag/scroll events and the table again; (b) expiry sessions (--filter-time 2): aircraft expire and return, Total = number of (re-)adds, Most = largest simultaneous count; (c) long sessions: one aircraft heard 1003+ (quick) / 10007+ (thorough) times, Msgs column exact; (c') crowded sessions: 70-130 aircraft on a 60-row terminal, rows collected while the selection moves down through the list; (c'') gpsd sessions: the receiver position comes from a stand-in gpsd and moves once (due east / due north); title, table and map must follow the fixes; (d) map sessions: aircraft due N/E/S/W at d and 2d: direction, proportion, symmetry, centre, reset; distinct_nontrivial = sessions (each a distinct seeded feed)",
+        "radar on a 200x60 pseudo-terminal fed by a scripted server: (a) data sessions: the reconstructed Airplanes table (address, callsign, lat, lon, heading, altitude, rate, speed, distance, message count; blanks without a position) == rows computed by the repository's library on the same recorded lines (vmon feedsim), tab title count, Stats 'Total'/'Most'; then 1-40 zoom/pan/reset/drag/scroll events and the table again; (b) expiry sessions (--filter-time 2): aircraft expire and return, Total = number of (re-)adds, Most = largest simultaneous count; (b') relay sessions (--filter-time 1): 10-14 aircraft, each first heard 1 s + 3..60 ms after its predecessor, so additions and expiries share turns of the client's loop; Total = number of addresses; (c) long sessions: one aircraft heard 1003+ (quick) / 10007+ (thorough) times, Msgs column exact; (c') crowded sessions: 70-130 aircraft on a 60-row terminal, rows collected while the selection moves down through the list; (c'') gpsd sessions: the receiver position comes from a stand-in gpsd and moves once (due east / due north); title, table and map must follow the fixes; (d) map sessions: aircraft due N/E/S/W at d and 2d: direction, proportion, symmetry, centre, reset; distinct_nontrivial = sessions (each a distinct seeded feed)",
         ["screen reconstruction by a minimal VT model; aircraft dots are the blue (38;5;4) braille cells with --disable-heading", "one-cell tolerance for direction/symmetry, two cells for the 2:1 proportion"],
         a.verif, START, ev, distinct, min_evaluations=20)
